@@ -178,29 +178,32 @@ type consumeRec struct {
 }
 
 type inst struct {
-	s        *sys
-	sc       *scenario
-	store    ndn.Store
-	prod     *object.Client
-	cons     *object.Client
-	pe, ce   *hEngine
-	net      []*request
-	ref      map[string]*refPkt
-	removed  map[string]bool
-	pubBytes map[string][]byte // "obj|ver" -> published bytes
-	recs     []*consumeRec
-	timeouts map[string]int
-	toNames  map[string]enc.Name
-	fatal    map[string]int // Interest name -> fatal results (Nack / engine error) delivered
-	dynUsed  []bool
-	dynLog   []string
-	devUsed  int
-	group    string
-	hist     []string
-	done     bool
-	viol     []report.Violation
-	seen     map[string]bool
-	trace    []string // ops executed inside Finish (for Detail)
+	s          *sys
+	sc         *scenario
+	store      ndn.Store
+	prod       *object.Client
+	cons       *object.Client
+	pe, ce     *hEngine
+	net        []*request
+	ref        map[string]*refPkt
+	removed    map[string]bool
+	pubBytes   map[string][]byte // "obj|ver" -> published bytes
+	recs       []*consumeRec
+	timeouts   map[string]int
+	toNames    map[string]enc.Name
+	fatal      map[string]int  // Interest name -> fatal results (Nack / engine error) delivered
+	nonces     map[string]bool // (name, nonce) of every Interest the network carried
+	lost       map[string]int  // Interest name -> timeouts of transmissions the network did carry (genuine losses)
+	nonceDrops int             // Interests dropped by the network as duplicates (same name and nonce)
+	dynUsed    []bool
+	dynLog     []string
+	devUsed    int
+	group      string
+	hist       []string
+	done       bool
+	viol       []report.Violation
+	seen       map[string]bool
+	trace      []string // ops executed inside Finish (for Detail)
 }
 
 type sys struct {
@@ -306,7 +309,7 @@ func (s *sys) New() any {
 	vtime.Reset(false)
 	vsched.Reset()
 	return &inst{s: s, ref: map[string]*refPkt{}, removed: map[string]bool{}, pubBytes: map[string][]byte{},
-		timeouts: map[string]int{}, toNames: map[string]enc.Name{}, fatal: map[string]int{}, seen: map[string]bool{}}
+		timeouts: map[string]int{}, toNames: map[string]enc.Name{}, fatal: map[string]int{}, nonces: map[string]bool{}, lost: map[string]int{}, seen: map[string]bool{}}
 }
 
 func (in *inst) setup(sc *scenario) {
@@ -532,7 +535,9 @@ func (in *inst) checkRec(rec *consumeRec) {
 	// completion with an error: legal only if some Interest of this fetch exhausted its budget
 	pfx := mkName(rec.tgt.Obj, 0)
 	worst := 0
-	for n, c := range in.timeouts {
+	// only transmissions the network carried count as losses; a retransmission the network dropped
+	// because it repeated the nonce of an earlier transmission is the client's doing
+	for n, c := range in.lost {
 		if pfx.IsPrefix(in.toNames[n]) && c > worst {
 			worst = c
 		}
@@ -542,7 +547,9 @@ func (in *inst) checkRec(rec *consumeRec) {
 			return // a Nack or an engine error for one of its Interests is final: failing is legal
 		}
 	}
-	if worst <= retries {
+	if worst <= retries && in.nonceDrops > 0 {
+		in.bad("C15.budget", "fetch fails within the retry budget: retransmissions repeat the nonce of an earlier transmission (or carry none) and are dropped as duplicates by the network", fmt.Sprintf("%s completed with error %q; the most genuine losses any of its Interests had is %d (budget: %d retries); %d retransmitted Interests were dropped by the network for repeating a (name, nonce) it had already carried", rec.tgt, rec.err, worst, retries, in.nonceDrops))
+	} else if worst <= retries {
 		in.bad("C15.budget", "fetch fails although no Interest timed out more than Retries times", fmt.Sprintf("%s completed with error %q; the most timeouts any of its Interests had is %d (budget: %d retries = %d transmissions)", rec.tgt, rec.err, worst, retries, retries+1))
 	}
 }
@@ -679,6 +686,9 @@ func (in *inst) timeout(r *request) {
 	r.pending = false
 	in.timeouts[r.nameS]++
 	in.toNames[r.nameS] = r.name
+	if !r.dup {
+		in.lost[r.nameS]++
+	}
 	r.cb(ndn.ExpressCallbackArgs{Result: ndn.InterestResultTimeout})
 	in.gcNet()
 }
@@ -1111,6 +1121,14 @@ func (s *sys) Canon(i any) string {
 	sort.Strings(keys)
 	for _, k := range keys {
 		fmt.Fprintf(&b, "to{%s=%d}", k, in.timeouts[k])
+	}
+	keys = keys[:0]
+	for k := range in.lost {
+		keys = append(keys, k)
+	}
+	sort.Strings(keys)
+	for _, k := range keys {
+		fmt.Fprintf(&b, "lost{%s=%d}", k, in.lost[k])
 	}
 	keys = keys[:0]
 	for k := range in.fatal {
